@@ -82,7 +82,7 @@ func concRound(seed uint64, round int, workers int) (njobs int, diffs []string) 
 	// single-percent-sign, invalid-code-point and lax-host branches are only reached by the right pair)
 	inputs := []string{"http://example.com/100%", "data:100%,x", "http://h/%zz/%", "http://u%:p%@h/", "http://\xff\xfe/", "http://h/\xff?\xfe#\xfd",
 		"http://a b/", "http://h//a//b/../c", "http://EXAMPLE.com:80/a/./b/../c?b=2&a=1#f", "http://h/?%ff=1&\U0001F600=1&a=%41", "file:///C|/x", "HTTP://U:P@H:8080/%7e?q=%2541#%23%23x",
-		"http://[::1]/", "http://0x7f.1/", "http://xn--bcher-kva.example/", "http://a\u2260b/", "sc://h/p?q#f", "//h/x", "x/../y", "?q", "#f", "", "c|/x", "\\\\h\\x"}
+		"http://[::1]/", "http://0x7f.1/", "http://foo.1/", "http://bar.0x10.1/", "http://left.0xg/", "http://1.2.3.4.5/", "http://256.1/", "http://a b.1/", "http://[1::2::3]/", "http://xn--bcher-kva.example/", "http://a\u2260b/", "sc://h/p?q#f", "//h/x", "x/../y", "?q", "#f", "", "c|/x", "\\\\h\\x"}
 	for len(inputs) < 60 {
 		if r.Chance(1, 2) {
 			inputs = append(inputs, r.anyInput())
@@ -232,6 +232,10 @@ func concRound(seed uint64, round int, workers int) (njobs int, diffs []string) 
 		}
 		if j.kind == 6 {
 			return Obs{Kind: "U", Fields: append(urlFields(r.u), r.u.String(), fmt.Sprint(r.errText))}.String()
+		}
+		if r.err != nil {
+			// the full text of a returned error is part of what a call returns
+			return implObs(r.u, r.err).String() + " | " + r.err.Error()
 		}
 		return implObs(r.u, r.err).String()
 	}
